@@ -51,7 +51,7 @@ def make_cfg(case: dict[str, Any], mask: list[bool] | None, method: str) -> dict
     cfg: dict[str, Any] = {
         "variables": {"initial_values": case["x0"], "lower_bounds": case["lb"], "upper_bounds": case["ub"]},
         "optimizer": optimizer_cfg(method, case["budget"]),
-        "realizations": {"weights": case["weights"]},
+        "realizations": {"weights": case["weights"], **({"realization_min_success": 0} if case.get("fail_perturbations") else {})},
         "gradient": {"number_of_perturbations": 3, "perturbation_magnitudes": 0.05, "seed": case["seed"]},
         "samplers": [{"method": m, "shared": sh} for m, sh in case["samplers"]],
     }
@@ -101,6 +101,8 @@ def run_case(case: dict[str, Any]) -> dict[str, Any]:  # noqa: C901, PLR0912, PL
     r_n = len(case["weights"])
     a = np.array(case["slopes"], dtype=np.float64).reshape(r_n, 1, n)
     ev = AffineEvaluator(a, np.zeros((r_n, 1)), quad=1.0)
+    if case.get("fail_perturbations"):  # every perturbed evaluation fails: the (reported) gradient has no successful realization
+        ev.fail = {(r, p): [("obj", 0)] for r in range(r_n) for p in range(3)}
     ctx = OptimizerContext(evaluator=ev)
     events: list[tuple[Any, Any]] = []
     ctx.add_observer(EventType.FINISHED_EVALUATION, lambda e: events.append((e.config, e.data)))
@@ -248,6 +250,14 @@ def hypothesis_shard(item: dict[str, Any]) -> Collector:
         case["x0"] = [draw(st.sampled_from([-0.5, 0.0, 0.25, 0.5, 1.0])) for _ in range(n)]
         if case["start"] is not None:
             case["start"] = [draw(st.sampled_from([-0.75, 0.1, 0.4, 0.9, 1.5])) for _ in range(n)]
+        if draw(st.integers(0, 3)) == 0 and method != "cobyla":  # start values a rounding error away from a bound (lb=-1, ub=2)
+            for i in range(n):
+                pick = draw(st.sampled_from(["keep", "keep", "lo", "hi"]))
+                if pick != "keep":
+                    tiny = draw(st.sampled_from([5e-11, 3e-12, 2e-14]))
+                    (case["x0"] if case["start"] is None else case["start"])[i] = -1.0 + tiny if pick == "lo" else 2.0 - tiny
+            case["near_bound"] = True
+        case["fail_perturbations"] = draw(st.integers(0, 5)) == 0 and method in ("slsqp", "l-bfgs-b", "scripted")
         case["budget"] = draw(st.integers(2, 7))
         case["weights"] = [draw(st.sampled_from([1.0, 2.0])) for _ in range(draw(st.integers(1, 3)))]
         case["slopes"] = [draw(st.sampled_from([-1.0, -0.3, 0.0, 0.4, 1.0])) for _ in range(len(case["weights"]) * n)]
@@ -282,7 +292,9 @@ def hypothesis_shard(item: dict[str, Any]) -> Collector:
                  classes=(f"method={case['method']}", "rejected-config" if info.get("rejected") else "accepted-config",
                           "relative-perturbations" if case.get("ptypes") and 2 in case["ptypes"] else "absolute-perturbations", "nested" if info["nested_runs"] else "flat",
                           "scaled" if case["vscale"] else "unscaled", f"samplers={len(case['samplers'])}",
-                          "start=argument" if case["start"] is not None else "start=config", f"fixed={fixed}", f"mask-as-{case['mask_kind']}"))
+                          "start=argument" if case["start"] is not None else "start=config", f"fixed={fixed}", f"mask-as-{case['mask_kind']}",
+                          "start-near-bound" if case.get("near_bound") else "start-generic",
+                          "all-perturbations-fail" if case.get("fail_perturbations") else "no-failures"))
 
     run_hypothesis(col, cases(), body, seed=item["seed"], max_examples=item["examples"])
     return col
